@@ -220,6 +220,10 @@ def run(rep, tier):
     rc = rep.rule("R03.e", "eBPF r6-r10 live in SysV callee-saved registers", floor=1)
     rep.ob(rc, "callee-saved", all(jm.regmap[k] in X.CALLEE_SAVED for k in (6, 7, 8, 9, 10)), "REGISTER_MAP[6..=10]",
            expected=sorted(X.CALLEE_SAVED), found=[jm.regmap[k] for k in (6, 7, 8, 9, 10)])
+    # the execution context each VM kind hands to the x86-64 JIT code is part of "the same result for each kind
+    # of VM": the context rules of C09 that concern this engine are obligations here too
+    import props.c09 as c09
+    c09.run(rep, tier, parts=("jit", "ctor"))
     rep.trust("rustc front end / typed THIR", "x86model.py: decoder and semantics of the opcode subset, written from the Intel SDM",
               "the hardware", "imodel: the interpreter summaries validated against the ISA under C01")
     rep.assume("all memory accesses of the compared paths are in bounds (the JIT performs no checks by documented design)",
